@@ -164,6 +164,27 @@ func setup(t *rapid.T) *machine {
 }
 
 // payload draws a well-formed full payload for f.
+// shownData renders the data after an accepted full write for the comparison with the payload. An item
+// whose payload leaves the changeability flag out keeps the flag the stored item carried (the server owns
+// that flag, model.RemoteFullWriteAllowed), so for those items the flag is not part of "the data shows the
+// payload"; everything else is compared verbatim. C04 owns the flag rules themselves.
+func shownData(f *gen.Func, data, payload any) string {
+	if f == nil || !f.IsList || f.WriteCheck == "" {
+		return world.JSON(data)
+	}
+	c := world.DeepCopy(data)
+	have, want := refmodel.ItemsOf(f, c), refmodel.ItemsOf(f, payload)
+	if len(have) == len(want) {
+		for i := range have {
+			if want[i].FieldByName(f.WriteCheck).IsNil() {
+				fv := have[i].FieldByName(f.WriteCheck)
+				fv.Set(reflect.Zero(fv.Type()))
+			}
+		}
+	}
+	return world.JSON(c)
+}
+
 func (m *machine) payload(t *rapid.T, f *gen.Func, label string) any {
 	if f.IsList && listgen.CapsOf(f).Keyed {
 		return refmodel.Payload(f, listgen.Items(t, f, 2, gen.Opt{}, label))
@@ -537,7 +558,7 @@ func (m *machine) step(t *rapid.T) {
 					world.Fail(t, fmt.Sprintf("C01/accepted-event-count/%s", sigBase), "accepted %s published %d data-change events%s", cl, dataEvents, desc())
 				}
 			case cl == model.CmdClassifierTypeWrite && isOrdinaryData:
-				if afterLocal != payloadJS {
+				if shown := shownData(f, dest.f.DataCopy(fn), payload); shown != payloadJS {
 					world.Fail(t, fmt.Sprintf("C01/accepted-without-effect/%s", sigBase), "the write was accepted (no error result) but the local data does not show the payload\n payload: %s\n data:    %s%s", payloadJS, afterLocal, desc())
 				}
 			case cl == model.CmdClassifierTypeCall && regKind != "" && dest != nil && dest.class == "special":
